@@ -103,6 +103,23 @@ def handleCase (line : String) : String :=
         answer "=" s!"read={spec} patch={spec}" [] (some s!"read={rd} patch={pt}")
       | _, _, _ => bad
     | _ => bad
+  | "names3" :: fs =>
+    -- `names3 <cat> <ex> <chunk> <platform> <dat> <dat> <dat>`: three AddData commands in a row on one
+    -- category / expansion / chunk; each writes to the data file its own number names
+    match nats fs with
+    | some [cat, ex, chunk, pl, d1, d2, d3] =>
+      match platformString pl with
+      | some t =>
+        let folder := bstr (repoName ex)
+        let sub := ex * 256 + chunk
+        let pf := bstr (patchFolder sub)
+        let uniq := fun (l : List String) => (l.toArray.qsort (· < ·)).toList.eraseDups
+        let spec := ",".intercalate (uniq ([d1, d2, d3].map fun d => s!"{folder}/{bstr (Spec.Paths.datName cat ex chunk t d)}"))
+        let rd := ",".intercalate (uniq ([d1, d2, d3].map fun d => s!"{folder}/{bstr (datFilename cat ex chunk t d)}"))
+        let pt := ",".intercalate (uniq ([d1, d2, d3].map fun d => s!"{pf}/{bstr (patchDatFilename cat sub t d)}"))
+        answer "=" s!"read={spec} patch={spec}" [] (some s!"read={rd} patch={pt}")
+      | none => bad
+    | _ => bad
   | [op, l] =>
     if op != "sort" && op != "discover" then bad else
     match natList l with
